@@ -229,13 +229,21 @@ def run(ctx, prog, res):
     # R8 -------------------------------------------------------------------------------------
     r8 = res.rule("C14.R8", "the most recently added range wins wherever it applies: `insert` has no way out that leaves the inserted range behind - every path to a return passes through the place where the inserted range itself is put into the resulting vector")
     ins = prog.require_fn("opening_hours::schedule::Schedule::insert")
+    # the inserted range is not Copy: the call it is moved into as a whole (push, iter::once, an array, ...) is where it is put
     puts = []
     for bb, t in ins.calls():
-        nm = (t.get("callee") or {}).get("name") or ""
-        if nm in ("push", "insert", "push_back", "extend_one") and len(t["args"]) >= 2 and 2 in flow.root_params(ins, t["args"][-1]):
-            puts.append(bb)
-        elif nm in ("from", "into", "from_iter", "collect", "chain") and any(2 in flow.root_params(ins, a) for a in t["args"]) and "TimeRange" in str((t.get("callee") or {}).get("path_args")) and "once" in flow.shape(ins, t["args"][-1], depth=4):
-            puts.append(bb)
+        nm = flow.call_name(t) or ""
+        if re.search(r"(mem::drop|mem::forget|ManuallyDrop)", nm):
+            continue
+        for a in t["args"]:
+            pl = lib.operand_place(a)
+            if a.get("k") == "move" and pl is not None and not pl["p"] and flow.shape(ins, a, depth=2) == "p2":
+                puts.append(bb)
+    for bb, b in ins.live_blocks():
+        for st in b["stmts"]:
+            if st["k"] == "assign" and st["rv"]["k"] == "agg" and any(o.get("k") == "move" and lib.operand_place(o) is not None and not lib.operand_place(o)["p"] and flow.shape(ins, o, depth=2) == "p2" for o in st["rv"]["ops"]):
+                puts.append(bb)
+    puts = sorted(set(puts))
     rets = [bb for bb, b in ins.live_blocks() if b["term"]["k"] == "return"]
     r8.check(bool(puts), {"fn": "insert", "inserted_range_put_at_blocks": puts}, "C14.R8:ANCHOR", "ANCHOR: insert no longer pushes its argument into a vector of periods", lib.where_of(ins))
     if puts:
